@@ -125,7 +125,7 @@ def run(ctx) -> Report:
     prog = ctx.prog
     cls = prog.get_class(CLS)
     ctx.crosscheck_dispatch({"FormSplitter"})
-    pb = lambda n, **a: Obj("pullback:" + n, __class__=prog.get_class("ufl.pullback." + n), **a)  # noqa: E731
+    pb = lambda n, *a: uflmodel.make_pullback(prog, n, *a)  # noqa: E731
     idx, mult = corpus.idx, corpus.mult
     P, S = uflmodel.m_product, uflmodel.m_sum
 
@@ -149,11 +149,11 @@ def run(ctx) -> Report:
     dom2 = world(2, 2)
     layouts.append(("P2^2 x P1", dom2, [element((2,), pb("IdentityPullback"), (2,)), element((), pb("IdentityPullback"), ())]))
     sym_sub = element((3,), None, (2, 2))
-    sym_sub.attrs["pullback"] = pb("SymmetricPullback", _element=sym_sub, _symmetry={(0, 0): 0, (0, 1): 1, (1, 0): 1, (1, 1): 2})
     sym_sub.attrs["sub_elements"] = [element((), pb("IdentityPullback"), ()) for _ in range(3)]
+    sym_sub.attrs["pullback"] = pb("SymmetricPullback", sym_sub, {(0, 0): 0, (0, 1): 1, (1, 0): 1, (1, 1): 2})
     layouts.append(("symmetric tensor x P1 x P2^2", dom2, [sym_sub, element((), pb("IdentityPullback"), ()), element((2,), pb("IdentityPullback"), (2,))]))
-    nested = element((3,), pb("MixedPullback"), (3,), [element((2,), pb("IdentityPullback"), (2,)), element((), pb("IdentityPullback"), ())])
-    nested.attrs["pullback"].attrs["_element"] = nested
+    nested = element((3,), None, (3,), [element((2,), pb("IdentityPullback"), (2,)), element((), pb("IdentityPullback"), ())])
+    nested.attrs["pullback"] = pb("MixedPullback", nested)
     layouts.append(("[[P2^2, P1], P3]  (a mixed sub-element)", dom2, [nested, element((), pb("IdentityPullback"), ())]))
     dom3 = world(3, 2)
     layouts.append(("RT (contravariant, immersed: 2 ref / 3 phys) x P1 x RT", dom3, [element((2,), pb("ContravariantPiola"), (3,)), element((), pb("IdentityPullback"), ()), element((2,), pb("ContravariantPiola"), (3,))]))
@@ -167,8 +167,8 @@ def run(ctx) -> Report:
             sizes.append(n)
         N = sum(sizes)
         offs = [sum(sizes[:k]) for k in range(len(sizes))]
-        mixed = element((sum(e.attrs["reference_value_size"] for e in subs),), pb("MixedPullback"), (N,), subs)
-        mixed.attrs["pullback"].attrs["_element"] = mixed
+        mixed = element((sum(e.attrs["reference_value_size"] for e in subs),), None, (N,), subs)
+        mixed.attrs["pullback"] = pb("MixedPullback", mixed)
         space = Obj("space", ufl_domain=lambda dom=dom: dom)
 
         def make_arg(name, number):
